@@ -51,7 +51,13 @@ def make_spec(st, idx, tier):
         spec["kind"] = "historical_repeat"
         spec["profile"]["aggregates"] = ["postal_code", "county_fips", "county_classification"]
         return spec
-    spec = C.state_spec(st, tier, WORLD, PROFILE, FEED, min_units=30)
+    if idx % 4 == 1:
+        # district office with few, large districts: the bootstrap model gives each district with more than 10 units its own
+        # contest effect, so the order in which those contests are enumerated matters for the seeded draws
+        spec = C.state_spec(st, tier, dict(WORLD, offices=["H"], n_states=(1, 2), n_counties=(5, 8), n_units=(5, 9), n_districts=(2, 3)),
+                            dict(PROFILE, estimators=["bootstrap"]), FEED, min_units=60)
+    else:
+        spec = C.state_spec(st, tier, WORLD, PROFILE, FEED, min_units=30)
     world, profile = spec["world"], spec["profile"]
     cut = float(st.sched.uniform(230, 480))
     ops = [o for o in spec["ops"] if o["t"] <= cut]
